@@ -1,12 +1,17 @@
 #!/usr/bin/env python3
-"""seedkeep.py <name>...: keep confirmed seeded changes from /tmp/seed/out/<name> as /verif/seeded/<name>/
+"""seedkeep.py [--from DIR] <name>...: keep confirmed seeded changes from /tmp/seed/out/<name> as /verif/seeded/<name>/
 (patch.diff, demo.rs, meta.json extended with the confirmation and with which checks caught it)."""
 import sys, os, json, shutil
 V = os.path.dirname(os.path.dirname(os.path.abspath(__file__)))
-for n in sys.argv[1:]:
-    src = f"/tmp/seed/out/{n}"
-    c = json.load(open(f"/tmp/seed/res/{n}.confirm.json"))
-    r = json.load(open(f"/tmp/seed/res/{n}.run.json"))
+BASE = "/tmp/seed"
+args = sys.argv[1:]
+if args and args[0] == "--from":
+    BASE = args[1]
+    args = args[2:]
+for n in args:
+    src = f"{BASE}/out/{n}"
+    c = json.load(open(f"{BASE}/res/{n}.confirm.json"))
+    r = json.load(open(f"{BASE}/res/{n}.run.json"))
     if not c.get("confirmed"):
         print(n, "NOT confirmed, skipped")
         continue
